@@ -1,4 +1,4 @@
-CONSTANTS N = 5 MaxSeg = 3 Marker = TRUE
+CONSTANTS N = 5 MaxSeg = 3 Marker = TRUE Timers = {}
 SPECIFICATION Spec
 CHECK_DEADLOCK FALSE
 INVARIANTS Integrity NoLossOnClose CloseOnlyWhenDone
